@@ -659,7 +659,9 @@ def gen_prog(pid, rng, kind, length, force=None):
         target = None
         # multi-step try semantics (abort after a failed step) are the probe corpus' subject (C05/C06);
         # zoo chains under try macros are single-step
-        allow_defer = not is_try
+        # (the sequential / thread try macros are multi-step too: the reference aborts after a step in which an active
+        # branch ended None / Err, see render_prog; the async try macros stay single-step here)
+        allow_defer = not (is_try and flavour == "async")
         defer_worlds = None
         if flavour == "async":
             # a step of an async macro must end in a future: `~` only where the value is one
@@ -823,6 +825,15 @@ def render_prog(p, mode="twin"):
         stmts += ctx.lets
         for i, c in chains:
             stmts.append("let mut %s = %s;" % (names[i], c))
+        if is_try and not asy and k < maxd - 1:
+            # between the steps of a try macro: the lowest-numbered active branch that ended the step None / Err is the result
+            fam = finals[0]
+            act = [i for i, _ in chains]
+            if fam == "O":
+                stmts.append("if %s { break '__try None; }" % " || ".join("%s.is_none()" % names[i] for i in act))
+            else:
+                for i in act:
+                    stmts.append("if let Err(e) = &%s { break '__try Err(*e); }" % names[i])
     tup = names[0] if n == 1 else "(%s)" % ", ".join(names)
     if is_try and not asy:
         fam = finals[0]
@@ -846,7 +857,10 @@ def render_prog(p, mode="twin"):
         final = inner
     else:
         final = tup
-    ref_body = " ".join(stmts) + " let __res: %s = %s; __res" % (rty, final)
+    if is_try and not asy and maxd > 1:
+        ref_body = "let __res: %s = '__try: { %s %s }; __res" % (rty, " ".join(stmts), final)
+    else:
+        ref_body = " ".join(stmts) + " let __res: %s = %s; __res" % (rty, final)
     # ---------------- functions
     if mode == "noalloc":
         m_fn = "pub fn m_%d() -> String { let (__res, __n) = vrt::alloc::measure(|| { let __res: %s = %s! { %s }; __res }); format!(\"{:?}|allocs={}\", __res, __n) }" % (p.id, rty, kind, dsl)
@@ -859,7 +873,7 @@ def render_prog(p, mode="twin"):
     # the invocation stands in different syntactic / item contexts (only the macro side; the reference stays plain)
     # operands of the sequential macros are part of the caller's function body: they may `continue` / `break` a loop of the
     # caller (the jump is never taken here, it only has to compile)
-    loop_ctx = kind in ("join", "try_join") and p.id % 5 == 3 and not p.branches[0][1]
+    loop_ctx = kind in ("join", "try_join") and (p.id % 5 == 3 or getattr(p, "force_loop", False)) and not p.branches[0][1]
     if loop_ctx:
         src0 = p.branches[0][0]
         jump = "continue" if p.id % 2 else "break"
@@ -1133,6 +1147,16 @@ def build_corpus(tier, seed):
                 for attempt in range(6):
                     if keep(gen_forced(0, rng, next_kind() if flav == "sync" else next_async_kind(), w, picke, 0)):
                         break
+    # (a5) multi-step chains under `join!` / `try_join!` inside a loop of the caller, an operand jumping to that loop
+    for kind in ("try_join", "join", "try_join", "try_join"):
+        for attempt in range(40):
+            cand = gen_prog(0, rng, kind, rng.randint(3, 7))
+            if cand is None or cand.branches[0][1] or not any(m.deferred for b in cand.branches for m in b[3]):
+                continue
+            cand.force_loop = True
+            if keep(cand):
+                progs[-1].tags.add("sp:multi_step_in_callers_loop")
+                break
     # (a4) capture grids: three branches x three positions x two steps with a block operand on every action
     for kind in ("join", "join_spawn", "spawn", "join"):
         for world, ops in (("R", ("or", "or_else", "map_err")), ("R", ("map", "and_then", "or", "map_err")), ("O", ("map", "and_then", "filter", "or", "or_else")),
